@@ -11,15 +11,17 @@ Require Import Bytes Outcome.
 Record mem := { m_base : N; m_bytes : list byte }.
 Definition mrd (m : mem) (off n : N) : res (list byte) := rd (m_bytes m) off n.
 
-(* ---- the five Header implementations ----------------------------------- *)
+(* ---- the five Header implementations of the crates, and a user-defined one ---------- *)
 Inductive hkind :=
 | HDummy    (* multiboot2_common::test_utils::DummyTestHeader {typ:u32, size:u32} *)
 | HTagH     (* multiboot2::TagHeader {typ:u32, size:u32} *)
 | HHdrTagH  (* multiboot2_header::HeaderTagHeader {typ:u16, flags:u16, size:u32} *)
 | HBootH    (* multiboot2::BootInformationHeader {total_size:u32, reserved:u32} *)
-| HBasicH.  (* multiboot2_header::Multiboot2BasicHeader {magic, arch, length, checksum} *)
+| HBasicH   (* multiboot2_header::Multiboot2BasicHeader {magic, arch, length, checksum} *)
+| HUser12.  (* a user-defined Header whose size is no multiple of 8: #[repr(C)] {typ:u32, size:u32, extra:u32}, 12 bytes,
+               alignment 4, payload_len = size - 12 (asserted), the trait's default total_size *)
 
-Definition hsize (h : hkind) : N := match h with HBasicH => 16 | _ => 8 end.
+Definition hsize (h : hkind) : N := match h with HBasicH => 16 | HUser12 => 12 | _ => 8 end.
 
 (* the stored size field, read from the header bytes *)
 Definition stored_size (h : hkind) (hdr : list byte) : N :=
@@ -57,6 +59,7 @@ Definition set_size (h : hkind) (hdr : list byte) (ts : N) : list byte :=
       let magic := le (slice hdr 0 4) in
       let arch := le (slice hdr 4 4) in
       slice hdr 0 8 ++ s ++ enc32 (calc_checksum magic arch (ts mod pow2_32))
+  | HUser12 => slice hdr 0 4 ++ s ++ slice hdr 8 4
   | _ => slice hdr 0 4 ++ s
   end.
 
